@@ -218,6 +218,97 @@ func init() {
 				}
 			}
 		}
+		// (f) provenance of the identifying values: signed relay fields, never the unsigned message envelope
+		c.Rule("C03f provenance: the provider, chain and session id used for the double-spend key derive from the consumer-signed relay fields (RelaySession.Provider/SpecId/SessionId), the epoch from GetEpochStartForBlock(relay.Epoch), the project from GetProjectData; none depends on an unsigned field of the message envelope (MsgRelayPayment.Creator, DescriptionString)")
+		for _, lk := range lookups {
+			call := ir.CallOf(lk.Instr)
+			la := call.Args[len(call.Args)-5:]
+			want := []struct{ name, field, callee string }{
+				{"epoch", "x/pairing/types.RelaySession.Epoch", "invoke:x/pairing/types.EpochstorageKeeper.GetEpochStartForBlock"},
+				{"provider", "x/pairing/types.RelaySession.Provider", ""},
+				{"project", "x/projects/types.Project.Index", pk + "Keeper.GetProjectData"},
+				{"chain", "x/pairing/types.RelaySession.SpecId", ""},
+				{"session", "x/pairing/types.RelaySession.SessionId", ""},
+			}
+			for i, w := range want {
+				fields, calls := BackwardDeps(la[i])
+				key := "C03f/RelayPayment/key-provenance/" + w.name
+				switch {
+				case !fields[w.field]:
+					c.Fail(key, c.P.InstrPos(lk.Instr), "the "+w.name+" component of the double-spend key does not derive from "+w.field+": "+ir.Desc(la[i]))
+				case w.callee != "" && !calls[w.callee]:
+					c.Fail(key, c.P.InstrPos(lk.Instr), "the "+w.name+" component does not come from "+w.callee+": "+ir.Desc(la[i]))
+				case fields["x/pairing/types.MsgRelayPayment.Creator"] || fields["x/pairing/types.MsgRelayPayment.DescriptionString"]:
+					c.Fail(key, c.P.InstrPos(lk.Instr), "the "+w.name+" component depends on an unsigned field of the message envelope: "+ir.Desc(la[i]))
+				default:
+					c.OK(key, c.P.InstrPos(lk.Instr), ir.Desc(la[i]))
+				}
+			}
+		}
+
+		// (g) the registered sessions survive genesis export/import unchanged
+		c.Rule("C03g round-trip: UniqueEpochSessionKey/DecodeUniqueEpochSessionKey agree on component order; the genesis export stores each decoded component into the field of the same name; the genesis import passes each field as the parameter of the same name; every parameter of the key constructors flows into the key")
+		if exp := c.Fn(pk + "Keeper.GetAllUniqueEpochSessionStore"); exp != nil {
+			c.RequireResultNamesAgree("C03g", exp, "x/pairing/types.DecodeUniqueEpochSessionKey", 5)
+		}
+		if ig := c.Fn("x/pairing.InitGenesis"); ig != nil {
+			ss := c.CallsIn(ig, setUnique, true)
+			if len(ss) != 1 {
+				c.Undecided("InitGenesis: expected one SetUniqueEpochSession call, found %d", len(ss))
+			}
+			for _, s := range ss {
+				c.RequireArgNamesAgree("C03g", s)
+			}
+		}
+		c.RequireAllParamsUsed("C03g", "x/pairing/types.UniqueEpochSessionKey")
+		// encode/decode order: k-th joined string of the key is the parameter whose name equals the decode result that returns split[k]
+		if kf, df := c.Fn("x/pairing/types.UniqueEpochSessionKey"), c.Fn("x/pairing/types.DecodeUniqueEpochSessionKey"); kf != nil && df != nil {
+			enc := map[int]string{} // slice index -> param name
+			ir.EachInstr(kf, func(in ssa.Instruction) {
+				st, ok := in.(*ssa.Store)
+				if !ok {
+					return
+				}
+				ia, ok := st.Addr.(*ssa.IndexAddr)
+				if !ok {
+					return
+				}
+				k, ok := ia.Index.(*ssa.Const)
+				if !ok {
+					return
+				}
+				if p, ok := st.Val.(*ssa.Parameter); ok {
+					enc[int(k.Int64())] = p.Name()
+				}
+			})
+			dec := map[int]string{} // slice index -> result name
+			ir.EachInstr(df, func(in ssa.Instruction) {
+				r, ok := in.(*ssa.Return)
+				if !ok || IsFailureReturn(r) {
+					return
+				}
+				for ri, v := range r.Results {
+					if u, ok := v.(*ssa.UnOp); ok {
+						if ia, ok := u.X.(*ssa.IndexAddr); ok {
+							if k, ok := ia.Index.(*ssa.Const); ok {
+								dec[int(k.Int64())] = df.Signature.Results().At(ri).Name()
+							}
+						}
+					}
+				}
+			})
+			if len(enc) < 3 || len(dec) < 3 {
+				c.Undecided("could not recover the component order of UniqueEpochSessionKey (%d) / Decode (%d)", len(enc), len(dec))
+			}
+			for k, dn := range dec {
+				key := "C03g/key-codec/component-order/" + dn
+				if en, ok := enc[k]; ok && strings.EqualFold(en, dn) {
+					c.OK(key, c.P.Pos(df.Pos()), fmt.Sprintf("position %d is %s in both", k, dn))
+				} else {
+					c.Fail(key, c.P.Pos(df.Pos()), fmt.Sprintf("decode returns position %d as %q but the key constructor writes %q there", k, dn, enc[k]))
+				}
+			}
+		}
 		c.NotCovered("histories in which a message fails after the registration (relies on the SDK reverting the message's writes)")
 		c.NotCovered("injectivity of UniqueEpochSessionKey for identifiers containing spaces (value clause)")
 	})
